@@ -64,6 +64,7 @@ def process_twin(rng, rel, kinds):
     perv = rp.prepare(rng, sc)
     if perv is None:
         return None
+    rp.initial_perms(sc)                 # the twin is handed the very same initial-permeance objects as the original run
     sb = dict(sc)
     k = 1.0
     kpow2 = False
